@@ -177,6 +177,8 @@ func main() {
 		c07(*seed, *n)
 	case "c14":
 		c14(*seed, *n)
+	case "c08":
+		c08(*seed, *n, *keys)
 	case "c15":
 		c15(*seed, *n, *keys)
 	default:
